@@ -32,14 +32,15 @@ func init() {
 	checks.Register(&checks.Check{
 		ID:        "C08",
 		Level:     "model_checking",
-		Technique: "stateless model checking of the real jrpc2.Client caches (controlled scheduler over instrumented code, simulated node): all interleavings of 2-3 caller threads, the head poller and an environment thread up to a preemption bound, every single injected RPC failure at every exchange; oracle = uncached reference computed from the chain model + provenance counting of cached reads from the call log and the node's exchange log",
-		Rule: "jobs = max-reads m in {1,2,3} x programs of 1-2 calls per thread over {Get(filterA), Get(filterB), Get(no logs), Get(receipts), Latest(floor)} on colliding ranges (1,2),(1,2),(2,2),(3,1) of a static 6-block chain (2 txs x 2 logs per block, two addresses x two event signatures, filter A = address, filter B = topic0, sharing one log), for the header-segment cache and the block-segment cache; head jobs add an environment thread announcing heads with repeats and regressions (prefixes of the same chain) and firing the poller's ticker. " +
-			"Per job every schedule with <= 2 preemptions (thorough 3) and <= 2 deviations in total (thorough 3), all free choices (who runs at call boundaries / when a thread blocks or ends), and on fault jobs every single rpc-error / transport-error at every exchange (including the poller's). An execution is non-trivial when at least one read was served from cache or a fault was injected; distinct = distinct (job, choice sequence).",
+		Technique: "stateless model checking of the real jrpc2.Client caches (controlled scheduler over instrumented code, simulated node): all interleavings of 2-3 caller threads and the head poller up to a preemption bound, every single injected RPC failure at every exchange; oracle = uncached reference computed from the chain model + counting of reads served without asking the node from the call log and the node's exchange log",
+		Rule: "jobs = max-reads m in {1,2,3} x one program of 1-2 calls per thread (2 threads; 3 threads with 1 call, thorough also 3 threads with 1-2 calls) over {Get(filter A), Get(filter B), Get(no logs), Get(receipts)} on colliding ranges (1,2),(1,2),(2,2),(3,1) of a static 6-block chain (2 txs x 2 logs per block, two addresses x two event signatures; filter A = address X, filter B = topic0 S1, sharing one log and each selecting one the other does not), separately for the header-segment cache and the block-segment cache and once across both; head jobs = programs over {Latest(floor 0|3|4|5), announce(head n)+poller tick} where announcements move the node among prefixes of the same chain with repeats (4 while 4, 5 twice) and regressions (3 after 4/5); mixed Get+Latest jobs; the sequences of the repository's own sequential cache tests. " +
+			"Per job every schedule with <= 2 preemptions and <= 2 deviations in total (head jobs with announcements: 1; thorough: core jobs 3, the rest 2), all free choices (who runs at call boundaries and when a thread blocks or ends) exhaustively, and on fault jobs additionally every single rpc-error-object / transport-error at every exchange (Get's fetch, logs and receipts exchanges, Latest's own fetch, the poller's poll). An execution is non-trivial when at least one read was served from cache or a fault was injected; distinct = distinct (job, choice sequence).",
 		Assumptions: []string{
 			"simulated node (h/simeth) answers like a well-behaved geth; see DESIGN.md §7",
 			"interleavings are at synchronisation-point granularity (mutex, once, channel, spawn, RPC exchange); unsynchronised memory accesses are C18's subject",
-			"extra correct logs/txs that another caller's filter attached to a shared cached block are not judged (row-level isolation is C04)",
-			"bounded reuse counts reads served without asking the node per fetch; the read that performs the fetch is not counted (the reading under which the repo's TestCache_MaxReads and TestLatest_Cached hold)",
+			"extra correct logs/txs on a returned block beyond the caller's filter are not judged (row-level isolation is C04); a matching log missing, a wrong log, or a log index twice within a tx is",
+			"bounded reuse counts reads served without asking the node between two consecutive successful node fetches of the same segment key (head: per announced pair); the read that performs the fetch is not counted (the reading under which the repo's TestCache_MaxReads and TestLatest_Cached hold); a concurrent cached read is charged to the most favourable window its call interval touches",
+			"the head part changes only the head (prefixes of one fixed chain); block contents of a number never change",
 		},
 		Budget:        map[string]time.Duration{"quick": 140 * time.Second, "thorough": 1100 * time.Second},
 		MinNontrivial: 1000,
@@ -383,8 +384,8 @@ func c08Run(c *fw.Ctx) {
 		jobs = []job{one}
 	}
 	c.Bound("jobs", len(jobs))
-	c.Bound("threads", map[string]int{"quick": 3, "thorough": 3}[c.Tier])
-	c.Bound("calls_per_thread", 2)
+	c.Bound("threads", "2-3")
+	c.Bound("calls_per_thread", "1-2 (+ head announcements)")
 	c.Bound("maxreads", []int{1, 2, 3})
 	c.Bound("preemptions", c08Bounds(c.Thorough(), job{})[vrt.KPreempt])
 	c.Bound("deviations_total", c08Bounds(c.Thorough(), job{})[0])
@@ -501,7 +502,9 @@ func c08Run(c *fw.Ctx) {
 		if !ok {
 			return
 		}
-		c.Count("jobs_rooted", 1)
+		if c.Shard == 0 {
+			c.Count("jobs_explored", 1)
+		}
 		c.Res.States += int64(states.Len())
 		if dbg != "" {
 			f, _ := os.OpenFile(dbg, os.O_APPEND|os.O_CREATE|os.O_WRONLY, 0o644)
